@@ -69,21 +69,6 @@ Fixpoint basename_aux (p acc : str) : str :=
   end.
 Definition basename (p : str) : str := basename_aux p [].
 
-(* main(): `if args.cfile or args.hfile:` one File(file_name, file_data); else one File(item) per selected path
-   (the path selection itself is C15's model; here the explicit regular files) *)
-Definition files_of_args (a : args) : list mfile :=
-  if truthy (a_cfile a) || truthy (a_hfile a) then
-    [mkmfile (or_else (a_filename a) (if truthy (a_cfile a) then s "file.c" else s "file.h"))
-             (Some (if truthy (a_cfile a) then or_else (a_cfile a) [] else or_else (a_hfile a) []))]
-  else map (fun p => mkmfile p None) (a_file a).
-
-(* what Lexer(file) / Context(file, ...) can observe of a File, given the disk *)
-Record finput := mkfinput { fi_in_path : str; fi_in_base : str; fi_in_source : option str }.
-Definition input_of (disk : str -> option str) (f : mfile) : finput :=
-  mkfinput (mf_path f) (basename (mf_path f))
-           (match mf_source f with Some x => Some x | None => disk (mf_path f) end).
-
-
 (* open(path).read() in text mode: universal newlines (CRLF and lone CR become LF); UTF-8 decoding is the identity on
    the code points of valid UTF-8.  MODELLED (CPython library behaviour), validated by the harness on real files. *)
 Fixpoint universal_newlines (x : str) : str :=
@@ -99,6 +84,34 @@ Fixpoint universal_newlines (x : str) : str :=
   end.
 Definition disk_of_raw (raw : str -> option str) : str -> option str :=
   fun p => match raw p with Some x => Some (universal_newlines x) | None => None end.
+
+(* main(): file_data.replace("\r\n", "\n").replace("\r", "\n") - the two str.replace passes, left to right *)
+Fixpoint py_replace_crlf (x : str) : str :=
+  match x with
+  | [] => []
+  | c :: r =>
+      match r with
+      | c2 :: r' => if N.eqb c 13 && N.eqb c2 10 then 10%N :: py_replace_crlf r' else c :: py_replace_crlf r
+      | [] => [c]
+      end
+  end.
+Definition py_replace_cr (x : str) : str := map (fun c => if N.eqb c 13 then 10%N else c) x.
+Definition translate_inline (x : str) : str := py_replace_cr (py_replace_crlf x).
+
+(* main(): `if args.cfile or args.hfile:` one File(file_name, file_data); else one File(item) per selected path
+   (the path selection itself is C15's model; here the explicit regular files) *)
+Definition files_of_args (a : args) : list mfile :=
+  if truthy (a_cfile a) || truthy (a_hfile a) then
+    [mkmfile (or_else (a_filename a) (if truthy (a_cfile a) then s "file.c" else s "file.h"))
+             (Some (translate_inline (if truthy (a_cfile a) then or_else (a_cfile a) [] else or_else (a_hfile a) [])))]
+  else map (fun p => mkmfile p None) (a_file a).
+
+(* what Lexer(file) / Context(file, ...) can observe of a File, given the disk *)
+Record finput := mkfinput { fi_in_path : str; fi_in_base : str; fi_in_source : option str }.
+Definition input_of (disk : str -> option str) (f : mfile) : finput :=
+  mkfinput (mf_path f) (basename (mf_path f))
+           (match mf_source f with Some x => Some x | None => disk (mf_path f) end).
+
 
 (* ------------------------------------------------------------------ the registry loop with its state *)
 (* What the primaries and their checks do at one turn of the loop, as a function of the debug level and of
@@ -300,6 +313,13 @@ Definition reviewed_main_args_reads : list (string * string * string) :=
    ("hfile", "main", "if args.cfile or args.hfile");
    ("no_colors", "main", "errors = format(files, use_colors=not args.no_colors)");
    ("use_gitignore", "main", "if args.use_gitignore")]%string.
+
+Definition reviewed_inline_branch : list string :=
+  ["file_name = args.filename or ('file.c' if args.cfile else 'file.h')";
+   "file_data = args.cfile if args.cfile else args.hfile";
+   "file_data = file_data.replace('\r\n', '\n').replace('\r', '\n')";
+   "file = File(file_name, file_data)";
+   "files.append(file)"]%string.
 
 Definition reviewed_formatter_option_reads : list (string * string * string) :=
   [("HumanizedErrorsFormatter._colorize_error_text", "self.use_colors", "if not self.use_colors or not color");
